@@ -368,4 +368,740 @@ theorem prune_w {U m} (h : WInv U m) (height : Nat) : WInv U (prune m height) :=
       simpa [prune, e] using this
     · right; simpa [prune] using e1
 
+/-! ### the invariant of a pruned node with frontier `p`
+
+`PInv U m p`: the best-chain blocks below height `p` are header-only, those at or above `p` are
+fully stored (body + supplement), every other record has a body.  It holds with `p = 0` on an
+unpruned node, `prune` moves the frontier up, `AddBlocks` keeps it for any batch.  Under it a
+failed reorg (missing pruned body while reverting, invalid block while applying) is always rolled
+back. -/
+
+structure PInv (U : Nat → Blk) (m : Mgr) (p : Nat) : Prop where
+  core : Core U m
+  chain : Chain U m.best
+  /-- the frontier never exceeds the chain: the tip's height is at least `p - 1` -/
+  frontier : p ≤ m.best.length
+  recstate : ∀ i r, m.recs i = some r → m.states i = true
+  /-- best-chain blocks below the frontier are header-only -/
+  pruned : ∀ i ∈ m.best, (U i).height < p → m.recs i = some ⟨false, false⟩
+  /-- best-chain blocks at or above the frontier are stored with body and supplement -/
+  stored : ∀ i ∈ m.best, p ≤ (U i).height → m.recs i = some ⟨true, true⟩
+  /-- only best-chain blocks are ever pruned -/
+  sidebody : ∀ i r, m.recs i = some r → i ∉ m.best → r.body = true
+  valid : ∀ i, i ≠ 0 → m.recs i = some ⟨true, true⟩ → (U i).bodyOk = true
+  validHdr : ∀ i, i ≠ 0 → m.states i = true → (U i).hdrOk = true ∧ (U i).future = false
+
+theorem PInv.toWInv {U m p} (h : PInv U m p) : WInv U m :=
+  ⟨h.core, h.chain, h.recstate, fun i hi => by
+    by_cases hlt : (U i).height < p
+    · exact Or.inr (h.pruned i hi hlt)
+    · exact Or.inl (h.stored i hi (by omega))⟩
+
+theorem Inv.toPInv {U m} (h : Inv U m) : PInv U m 0 :=
+  ⟨h.s.core, h.chain, Nat.zero_le _, fun i r hr => (h.s.recstate i r hr).2,
+    fun _ _ hlt => absurd hlt (Nat.not_lt_zero _), fun i hi _ => h.bestsupp i hi,
+    fun i r hr _ => (h.s.recstate i r hr).1, h.s.valid, h.s.validHdr⟩
+
+theorem WInv.best_height {U m} (h : WInv U m) (k : Nat) (hk : k < m.best.length) :
+    (U m.best[k]).height = m.best.length - 1 - k := by
+  have hlen := h.length
+  rw [h.best_getElem k hk, (h.core.anc_state h.tip_state k (by omega)).2]
+  omega
+
+theorem WInv.anc_mem {U m} (h : WInv U m) {k : Nat} (hk : k ≤ (U m.tip).height) :
+    anc U k m.tip ∈ m.best := by
+  have hlen := h.length
+  have hk' : k < m.best.length := by omega
+  rw [← h.best_getElem k hk']
+  exact List.getElem_mem hk'
+
+theorem WInv.mem_height_le {U m} (h : WInv U m) {i : Nat} (hi : i ∈ m.best) :
+    (U i).height ≤ (U m.tip).height := by
+  obtain ⟨k, hk, e⟩ := List.mem_iff_getElem.mp hi
+  have := h.best_height k hk
+  have hlen := h.length
+  rw [e] at this
+  omega
+
+theorem WInv.tip_drop {U m} (h : WInv U m) {c : Nat} (hc : c ≤ (U m.tip).height) :
+    ({ m with best := m.best.drop c } : Mgr).tip = anc U c m.tip := by
+  have hlen := h.length
+  have hk := h.best_getElem c (by omega)
+  show (m.best.drop c).headD 0 = anc U c m.tip
+  rw [← hk, List.headD_eq_head?_getD, List.head?_drop, List.getElem?_eq_getElem (by omega)]
+  rfl
+
+theorem WInv.nodup {U m} (h : WInv U m) : m.best.Nodup := by
+  rw [List.nodup_iff_pairwise_ne, List.pairwise_iff_getElem]
+  intro i j hi hj hij e
+  have h1 := h.best_height i hi
+  have h2 := h.best_height j hj
+  rw [e] at h1
+  omega
+
+/-- `bestAt k` is the best-chain block of height `k` -/
+theorem WInv.bestAt_height {U m} (h : WInv U m) {k i : Nat} (hk : m.bestAt k = some i) :
+    (U i).height = k ∧ i ∈ m.best ∧ k < m.best.length := by
+  have hm := bestAt_mem hk
+  unfold Mgr.bestAt at hk
+  split at hk
+  · next hlt =>
+    have hj : m.best.length - 1 - k < m.best.length := by omega
+    rw [List.getElem?_eq_getElem hj] at hk
+    have e := Option.some.inj hk
+    have := h.best_height _ hj
+    rw [e] at this
+    exact ⟨by omega, hm, hlt⟩
+  · simp at hk
+
+theorem WInv.bestAt_of_mem {U m} (h : WInv U m) {i : Nat} (hi : i ∈ m.best) :
+    m.bestAt (U i).height = some i := by
+  obtain ⟨k, hk, e⟩ := List.mem_iff_getElem.mp hi
+  have hh := h.best_height k hk
+  rw [e] at hh
+  unfold Mgr.bestAt
+  rw [if_pos (by omega)]
+  have : m.best.length - 1 - (U i).height = k := by omega
+  rw [this, List.getElem?_eq_getElem hk, e]
+
+/-- the invariant in terms of `BestIndex(height)`: the block at best height `k` is header-only
+iff `k` is below the frontier, fully stored otherwise -/
+theorem PInv.bestAt_rec {U m p} (h : PInv U m p) {k i : Nat} (hk : m.bestAt k = some i) :
+    (k < p → m.recs i = some ⟨false, false⟩) ∧ (p ≤ k → m.recs i = some ⟨true, true⟩) ∧
+    (m.recs i = some ⟨false, false⟩ ↔ k < p) := by
+  obtain ⟨hh, hm, _⟩ := h.toWInv.bestAt_height hk
+  refine ⟨fun hlt => h.pruned i hm (by omega), fun hle => h.stored i hm (by omega), ?_, fun hlt => h.pruned i hm (by omega)⟩
+  intro e
+  apply Nat.lt_of_not_le
+  intro hle
+  have := h.stored i hm (by omega)
+  rw [e] at this
+  simp at this
+
+theorem revertTip_p {U m p} (h : PInv U m p) {t b : Nat} {rest : List Nat} (hb : m.best = t :: b :: rest) :
+    (revertTip U m = .ok { m with best := b :: rest } ∧ PInv U { m with best := b :: rest } p ∧
+        m.recs t = some ⟨true, true⟩) ∨
+    (revertTip U m = .error .missingBlock ∧ m.recs t = some ⟨false, false⟩) := by
+  have hw := h.toWInv
+  have hc := h.chain
+  rw [hb] at hc
+  obtain ⟨hc', _, hp⟩ := hc.tail
+  have hbs : m.states b = true := hw.best_state (by simp [hb])
+  have hpar : (U t).parent = b := hp
+  have htm : t ∈ m.best := by simp [hb]
+  have hht : (U t).height = m.best.length - 1 := by
+    have := hw.best_height 0 (by simp [hb])
+    simpa [hb] using this
+  by_cases hlt : (U t).height < p
+  · right
+    have e := h.pruned t htm hlt
+    exact ⟨by simp [revertTip, hb, Mgr.block, e], e⟩
+  · left
+    have e := h.stored t htm (by omega)
+    refine ⟨by simp [revertTip, hb, Mgr.block, e, hpar, hbs],
+      ⟨⟨h.core.h0, h.core.closed, h.core.staterec⟩, hc', ?_, h.recstate, ?_, ?_, ?_, h.valid, h.validHdr⟩, e⟩
+    · have : m.best.length = (b :: rest).length + 1 := by simp [hb]
+      simp only at this ⊢
+      omega
+    · intro i hi; exact h.pruned i (by rw [hb]; exact List.mem_cons_of_mem _ hi)
+    · intro i hi; exact h.stored i (by rw [hb]; exact List.mem_cons_of_mem _ hi)
+    · intro i r hr hi
+      by_cases hit : i = t
+      · subst hit
+        have hr' : m.recs i = some r := hr
+        rw [e] at hr'
+        cases hr'; rfl
+      · apply h.sidebody i r hr
+        rw [hb]
+        intro hmem
+        rcases List.mem_cons.mp hmem with e1 | e1
+        · exact hit e1
+        · exact hi e1
+
+/-- reverting `n` blocks stops at the first pruned block: `c` blocks are gone, all of them fully
+stored; the stop is reported as a missing block -/
+theorem revertN_p {U p} : ∀ (n : Nat) (m : Mgr), PInv U m p → n < m.best.length →
+    ∃ c, c ≤ n ∧ (revertN U n m).1 = { m with best := m.best.drop c } ∧
+      PInv U { m with best := m.best.drop c } p ∧
+      (∀ i, i < c → m.recs (anc U i m.tip) = some ⟨true, true⟩) ∧
+      ((c = n ∧ (revertN U n m).2 = none) ∨
+       (c < n ∧ (revertN U n m).2 = some .missingBlock ∧ m.recs (anc U c m.tip) = some ⟨false, false⟩)) := by
+  intro n
+  induction n with
+  | zero => intro m h _; exact ⟨0, Nat.le_refl _, by simp [revertN], by simpa using h, fun i hi => by omega, Or.inl ⟨rfl, by simp [revertN]⟩⟩
+  | succ n ih =>
+    intro m h hn
+    match hb : m.best with
+    | [] => simp [hb] at hn
+    | [_] => simp [hb] at hn
+    | t :: b :: rest =>
+      have htip : m.tip = t := by simp [Mgr.tip, hb]
+      rcases revertTip_p h hb with ⟨hr, hi, ht⟩ | ⟨hr, ht⟩
+      · obtain ⟨c, hc, i1, i2, i3, i4⟩ := ih { m with best := b :: rest } hi (by simp [hb] at hn ⊢; omega)
+        have htip' : ({ m with best := b :: rest } : Mgr).tip = par U t := by
+          simp only [Mgr.tip, List.headD_cons]
+          have hc := h.chain
+          rw [hb] at hc
+          exact hc.tail.2.2.symm
+        refine ⟨c + 1, by omega, ?_, ?_, ?_, ?_⟩
+        · simp only [revertN, hr]; rw [i1]; simp
+        · simpa using i2
+        · intro i hi'
+          cases i with
+          | zero => simpa [htip] using ht
+          | succ i =>
+            have := i3 i (by omega)
+            rw [htip'] at this
+            rw [htip, anc_succ]; exact this
+        · rcases i4 with ⟨e1, e2⟩ | ⟨e1, e2, e3⟩
+          · left; exact ⟨by omega, by simp only [revertN, hr]; exact e2⟩
+          · right
+            refine ⟨by omega, by simp only [revertN, hr]; exact e2, ?_⟩
+            rw [htip'] at e3
+            rw [htip, anc_succ]; exact e3
+      · refine ⟨0, by omega, ?_, ?_, fun i hi => by omega, Or.inr ⟨by omega, by simp [revertN, hr], by simpa [htip] using ht⟩⟩
+        · simp only [revertN, hr, List.drop_zero]; rw [← hb]
+        · simp only [List.drop_zero]; rw [← hb]; exact h
+
+theorem applyTip_p {U m p} (h : PInv U m p) {i : Nat} (hp : par U i = m.tip) (hne : i ≠ 0)
+    (hs : m.states i = true) :
+    (∃ m', applyTip U m i = .ok m' ∧ PInv U m' p ∧ Mono m m' ∧ m'.best = i :: m.best ∧
+        m'.recs i = some ⟨true, true⟩ ∧ m'.states i = true ∧
+        ∀ j, j ≠ i → m'.recs j = m.recs j ∧ m'.states j = m.states j) ∨
+    (applyTip U m i = .error .invalidBlock ∧ m.recs i ≠ some ⟨true, true⟩ ∧ (U i).bodyOk = false) := by
+  have hw := h.toWInv
+  have hlen := hw.length
+  have hhi : (U i).height = (U m.tip).height + 1 := by
+    have := (h.core.closed i hs hne).2; rw [hp] at this; exact this
+  have hnb : i ∉ m.best := by
+    intro hi; have := hw.mem_height_le hi; omega
+  obtain ⟨r, hr⟩ := Option.isSome_iff_exists.mp (h.core.staterec i hs)
+  have hbody := h.sidebody i r hr hnb
+  have hpar : (U i).parent = m.tip := hp
+  have hbest : m.best = m.tip :: m.best.tail := by
+    have := h.chain.ne_nil
+    cases hb : m.best with
+    | nil => exact absurd hb this
+    | cons a t => simp [Mgr.tip, hb]
+  have hchain : Chain U (i :: m.best) := by
+    rw [hbest]; exact Chain.cons hne hp (hbest ▸ h.chain)
+  have hpr : ∀ j ∈ i :: m.best, (U j).height < p → j ∈ m.best := by
+    intro j hj hlt
+    rcases List.mem_cons.mp hj with e | e
+    · subst e; have := h.frontier; omega
+    · exact e
+  cases hsupp : r.supp with
+  | true =>
+    left
+    have hr' : m.recs i = some ⟨true, true⟩ := by
+      rw [hr]; cases r with
+      | mk bd sp => simp only at hbody hsupp; rw [hbody, hsupp]
+    refine ⟨{ m with best := i :: m.best }, ?_, ⟨⟨h.core.h0, h.core.closed, h.core.staterec⟩, hchain, ?_, h.recstate, ?_, ?_, ?_, h.valid, h.validHdr⟩, ⟨fun _ x => x, fun _ x => x, rfl⟩, rfl,
+      hr', hs, fun _ _ => ⟨rfl, rfl⟩⟩
+    · simp [applyTip, Mgr.block, hr, hbody, hsupp, hpar]
+    · have := h.frontier; simp only [List.length_cons]; omega
+    · intro j hj hlt; exact h.pruned j (hpr j hj hlt) hlt
+    · intro j hj hle
+      rcases List.mem_cons.mp hj with e | e
+      · subst e; exact hr'
+      · exact h.stored j e hle
+    · intro j r' hj hnm
+      exact h.sidebody j r' hj (fun hm => hnm (List.mem_cons_of_mem _ hm))
+  | false =>
+    have hr' : m.recs i ≠ some ⟨true, true⟩ := by
+      rw [hr]; cases r with
+      | mk bd sp => simp only at hsupp; rw [hsupp]; simp
+    cases hok : (U i).bodyOk with
+    | false => right; exact ⟨by simp [applyTip, Mgr.block, hr, hbody, hsupp, hpar, hok], hr', rfl⟩
+    | true =>
+      left
+      refine ⟨{ m with states := upd m.states i true, recs := upd m.recs i (some ⟨true, true⟩), best := i :: m.best }, ?_,
+        ⟨⟨h.core.h0, ?_, ?_⟩, hchain, ?_, ?_, ?_, ?_, ?_, ?_, ?_⟩, ⟨?_, ?_, rfl⟩, rfl, by simp [upd], by simp [upd],
+        fun j hj => by simp [upd, hj]⟩
+      · simp [applyTip, Mgr.block, hr, hbody, hsupp, hpar, hok]
+      · intro j hj hj0
+        have hj' : m.states j = true := by
+          by_cases e : j = i
+          · subst e; exact hs
+          · simpa [upd, e] using hj
+        obtain ⟨c1, c2⟩ := h.core.closed j hj' hj0
+        refine ⟨?_, c2⟩
+        by_cases e : par U j = i <;> simp [upd, e, c1]
+      · intro j hj
+        by_cases e : j = i
+        · subst e; simp [upd]
+        · simp [upd, e] at hj ⊢; exact h.core.staterec j hj
+      · have := h.frontier; simp only [List.length_cons]; omega
+      · intro j r' hj
+        by_cases e : j = i
+        · subst e; simp [upd]
+        · simp [upd, e] at hj ⊢; exact h.recstate j r' hj
+      · intro j hj hlt
+        have hjm := hpr j hj hlt
+        have e : j ≠ i := fun e => hnb (e ▸ hjm)
+        simpa [upd, e] using h.pruned j hjm hlt
+      · intro j hj hle
+        by_cases e : j = i
+        · subst e; simp [upd]
+        · rcases List.mem_cons.mp hj with e1 | e1
+          · exact absurd e1 e
+          · simpa [upd, e] using h.stored j e1 hle
+      · intro j r' hj hnm
+        have e : j ≠ i := fun e => hnm (by simp [e])
+        simp [upd, e] at hj
+        exact h.sidebody j r' hj (fun hm => hnm (List.mem_cons_of_mem _ hm))
+      · intro j hj0 hj
+        by_cases e : j = i
+        · subst e; exact hok
+        · simp [upd, e] at hj; exact h.valid j hj0 hj
+      · intro j hj0 hj
+        have hj' : m.states j = true := by
+          by_cases e : j = i
+          · subst e; exact hs
+          · simpa [upd, e] using hj
+        exact h.validHdr j hj0 hj'
+      · intro j hj; by_cases e : j = i <;> simp [upd, e, hj]
+      · intro j hj; by_cases e : j = i <;> simp [upd, e, hj]
+
+theorem applyAll_p {U p} : ∀ (l : List Nat) (m : Mgr), PInv U m p → Attach U m m.tip l →
+    PInv U (applyAll U l m).1 p ∧ Mono m (applyAll U l m).1 ∧
+    ((applyAll U l m).2 = none → (applyAll U l m).1.tip = l.getLastD m.tip) ∧
+    ((applyAll U l m).2 ≠ none → (applyAll U l m).2 = some .invalidBlock) ∧
+    ((∀ x ∈ l, m.recs x = some ⟨true, true⟩) → (applyAll U l m).2 = none) ∧
+    ((applyAll U l m).1.tip = m.tip ∨ (applyAll U l m).1.tip ∈ l) := by
+  intro l
+  induction l with
+  | nil => intro m h _; simp [applyAll, h, Mono.refl]
+  | cons x xs ih =>
+    intro m h ⟨hp, hne, hs, hrest⟩
+    rcases applyTip_p h hp hne hs with ⟨m', hok, hinv', hmono, hbest, _⟩ | ⟨herr, hnot, _⟩
+    · have htip' : m'.tip = x := by simp [Mgr.tip, hbest]
+      obtain ⟨i1, i2, i3, i4, i5, i6⟩ := ih m' hinv' (htip' ▸ Attach.mono hmono hrest)
+      simp only [applyAll, hok]
+      refine ⟨i1, hmono.trans i2, ?_, i4, ?_, ?_⟩
+      · intro he
+        rw [i3 he, htip']
+        cases xs <;> simp [List.getLastD]
+      · intro hall
+        exact i5 (fun y hy => hmono.supp y (hall y (List.mem_cons_of_mem _ hy)))
+      · right
+        rcases i6 with e | e
+        · rw [e, htip']; simp
+        · exact List.mem_cons_of_mem _ e
+    · simp only [applyAll, herr]
+      refine ⟨h, Mono.refl m, by simp, by simp, ?_, by simp⟩
+      intro hall
+      exact absurd (hall x (by simp)) hnot
+
+/-- **`reorgTo` on a pruned node**: it never panics; a failure (a pruned body among the blocks
+to revert, an invalid block among those to apply) leaves the manager on a tip `T` that shares an
+ancestor `anc c tip = anc f T` with the old tip such that all `c` reverted blocks are still fully
+stored; and whenever old tip and target have a common ancestor such that the blocks above it are
+fully stored on both sides, `reorgTo` succeeds (the path `reorgPath` finds is minimal, so it
+touches no other block). -/
+theorem reorgTo_p {U m p} (h : PInv U m p) {t : Nat} (ht : m.states t = true) :
+    PInv U (reorgTo U m t).1 p ∧ Mono m (reorgTo U m t).1 ∧
+    ((reorgTo U m t).2 = none → (reorgTo U m t).1.tip = t) ∧
+    ((reorgTo U m t).2 = none ∨ (reorgTo U m t).2 = some .invalidBlock ∨
+      (reorgTo U m t).2 = some .missingBlock) ∧
+    (∃ c f, c ≤ (U m.tip).height ∧ f ≤ (U (reorgTo U m t).1.tip).height ∧
+        anc U f (reorgTo U m t).1.tip = anc U c m.tip ∧
+        ∀ i, i < c → m.recs (anc U i m.tip) = some ⟨true, true⟩) ∧
+    (∀ c f, c ≤ (U m.tip).height → f ≤ (U t).height → anc U c m.tip = anc U f t →
+        (∀ i, i < c → m.recs (anc U i m.tip) = some ⟨true, true⟩) →
+        (∀ k, k < f → m.recs (anc U k t) = some ⟨true, true⟩) → (reorgTo U m t).2 = none) := by
+  have hw := h.toWInv
+  obtain ⟨na, nb, hna, hnb, hpath, hmeet, _, hleast⟩ := reorgPath_least h.core hw.tip_state ht
+  have hlen := hw.length
+  obtain ⟨c, hc, hres, hinvc, hsupp, hcase⟩ := revertN_p (U := U) na m h (by omega)
+  have htipc := hw.tip_drop (c := c) (by omega)
+  rcases hcase with ⟨hcn, hnone⟩ | ⟨hcn, hmiss, hff⟩
+  · -- all reverts succeeded
+    subst hcn
+    have hrev : revertN U c m = ({ m with best := m.best.drop c }, none) := Prod.ext hres hnone
+    have hatt : Attach U ({ m with best := m.best.drop c } : Mgr)
+        ({ m with best := m.best.drop c } : Mgr).tip ((List.range nb).map (fun k => anc U k t)).reverse := by
+      rw [htipc, hmeet]; exact attach_anc hinvc.core ht nb hnb
+    obtain ⟨a1, a2, a3, a4, a5, a6⟩ := applyAll_p _ _ hinvc hatt
+    have hmono0 : Mono m ({ m with best := m.best.drop c } : Mgr) := ⟨fun _ x => x, fun _ x => x, rfl⟩
+    have hred : reorgTo U m t = applyAll U ((List.range nb).map (fun k => anc U k t)).reverse { m with best := m.best.drop c } := by
+      simp only [reorgTo, hpath, List.length_map, List.length_range, hrev]
+    rw [hred]
+    refine ⟨a1, hmono0.trans a2, ?_, ?_, ?_, ?_⟩
+    · intro he
+      rw [a3 he, getLastD_reverse_map_anc, htipc]
+      split
+      · next h0 => subst h0; exact hmeet
+      · rfl
+    · cases he : (applyAll U ((List.range nb).map (fun k => anc U k t)).reverse { m with best := m.best.drop c }).2 with
+      | none => exact Or.inl rfl
+      | some e => right; left; rw [← he]; exact a4 (by simp [he])
+    · rcases a6 with e | e
+      · exact ⟨c, 0, hna, Nat.zero_le _, by rw [e, htipc]; rfl, hsupp⟩
+      · simp only [List.mem_reverse, List.mem_map, List.mem_range] at e
+        obtain ⟨g, hg, e⟩ := e
+        refine ⟨c, nb - g, hna, ?_, ?_, hsupp⟩
+        · rw [← e, (h.core.anc_state ht g (by omega)).2]; omega
+        · rw [← e, ← anc_add, hmeet]; congr 1; omega
+    · intro c' f' hc' hf' hcf hs1 hs2
+      obtain ⟨_, l2⟩ := hleast c' f' hc' hf' hcf
+      apply a5
+      intro x hx
+      simp only [List.mem_reverse, List.mem_map, List.mem_range] at hx
+      obtain ⟨k, hk, rfl⟩ := hx
+      exact hs2 k (by omega)
+  · -- a pruned body stopped the reverts
+    have hrev : revertN U na m = ({ m with best := m.best.drop c }, some .missingBlock) := Prod.ext hres hmiss
+    have hred : reorgTo U m t = ({ m with best := m.best.drop c }, some .missingBlock) := by
+      simp only [reorgTo, hpath, List.length_map, List.length_range, hrev]
+    rw [hred]
+    refine ⟨hinvc, ⟨fun _ x => x, fun _ x => x, rfl⟩, by simp, Or.inr (Or.inr rfl), ?_, ?_⟩
+    · exact ⟨c, 0, by omega, Nat.zero_le _, by simp only [anc_zero]; exact htipc, hsupp⟩
+    · intro c' f' hc' hf' hcf hs1 _
+      obtain ⟨l1, _⟩ := hleast c' f' hc' hf' hcf
+      have := hs1 c (by omega)
+      rw [hff] at this
+      simp at this
+
+/-- **the rollback of a failed reorg cannot fail**: wherever `reorgTo U m cs` stopped, `reorgTo`
+back to the old tip succeeds and restores the old best chain.  (The rollback's `reorgPath` is
+minimal, so it reverts only freshly applied blocks and re-applies only blocks the failed attempt
+had reverted, all of which are fully stored.) -/
+theorem rollback_p {U m p} (h : PInv U m p) {cs : Nat} (hcs : m.states cs = true) :
+    (reorgTo U (reorgTo U m cs).1 m.tip).2 = none ∧
+    PInv U (reorgTo U (reorgTo U m cs).1 m.tip).1 p ∧
+    Mono m (reorgTo U (reorgTo U m cs).1 m.tip).1 ∧
+    (reorgTo U (reorgTo U m cs).1 m.tip).1.best = m.best := by
+  have hw := h.toWInv
+  obtain ⟨i1, mono1, _, _, r5, _⟩ := reorgTo_p h hcs
+  generalize (reorgTo U m cs).1 = m1 at i1 mono1 r5 ⊢
+  have hw1 := i1.toWInv
+  obtain ⟨c, f, hc, hf, hcf, hsupp⟩ := r5
+  have hold : m1.states m.tip = true := mono1.states _ hw.tip_state
+  obtain ⟨i2, mono2, s1, _, _, s6⟩ := reorgTo_p i1 hold
+  have hlen := hw.length
+  have hX : p ≤ (U (anc U c m.tip)).height + 1 := by
+    have hhX := (h.core.anc_state hw.tip_state c hc).2
+    cases c with
+    | zero => have := h.frontier; simp only [anc_zero]; omega
+    | succ c =>
+      have hY := hsupp c (by omega)
+      have hYm := hw.anc_mem (k := c) (by omega)
+      have hhY := (h.core.anc_state hw.tip_state c (by omega)).2
+      have : p ≤ (U (anc U c m.tip)).height := by
+        apply Nat.le_of_not_lt
+        intro hlt
+        have := h.pruned _ hYm hlt
+        rw [hY] at this
+        simp at this
+      omega
+  have hfresh : ∀ i, i < f → m1.recs (anc U i m1.tip) = some ⟨true, true⟩ := by
+    intro i hi
+    have hZm := hw1.anc_mem (k := i) (by omega)
+    have hhZ := (i1.core.anc_state hw1.tip_state i (by omega)).2
+    have hhF := (i1.core.anc_state hw1.tip_state f hf).2
+    rw [hcf] at hhF
+    exact i1.stored _ hZm (by omega)
+  have hnone := s6 f c hf hc hcf hfresh (fun k hk => mono1.supp _ (hsupp k hk))
+  have htip := s1 hnone
+  generalize reorgTo U m1 m.tip = r2 at i2 mono2 hnone htip ⊢
+  refine ⟨hnone, i2, mono1.trans mono2, ?_⟩
+  apply Chain.unique i2.chain h.chain
+  have h2 := i2.chain.ne_nil
+  have h0 := h.chain.ne_nil
+  cases hb2 : r2.1.best with
+  | nil => exact absurd hb2 h2
+  | cons a2 t2 =>
+    cases hb0 : m.best with
+    | nil => exact absurd hb0 h0
+    | cons a0 t0 =>
+      simp [Mgr.tip, hb2, hb0] at htip
+      simp [htip]
+
+/-- the shared tail of `AddBlocks` / `AddValidatedV2Blocks` on a pruned node: exactly the
+conclusions of `maybeReorg_spec` — in particular **a failed reorg is always rolled back** -/
+theorem maybeReorg_p {U m p} (h : PInv U m p) {cs : Nat} (hcs : m.states cs = true) :
+    PInv U (maybeReorg U m cs).1 p ∧
+    ((∀ i, m.states i = true → (maybeReorg U m cs).1.states i = true) ∧
+     (∀ i, m.recs i = some ⟨true, true⟩ → (maybeReorg U m cs).1.recs i = some ⟨true, true⟩)) ∧
+    (((maybeReorg U m cs).2 = none ∧
+        ((heavier U cs m.tip = true ∧ (maybeReorg U m cs).1.tip = cs ∧
+            (maybeReorg U m cs).1.notified = m.notified + 1) ∨
+         (heavier U cs m.tip = false ∧ (maybeReorg U m cs).1 = m))) ∨
+     ((maybeReorg U m cs).2 = some .reorgFailed ∧ heavier U cs m.tip = true ∧
+        (maybeReorg U m cs).1.best = m.best ∧ (maybeReorg U m cs).1.notified = m.notified)) := by
+  unfold maybeReorg
+  cases hh : heavier U cs m.tip with
+  | false => simp [h]
+  | true =>
+    simp only [if_true]
+    obtain ⟨i1, mono1, r1, r4, _, _⟩ := reorgTo_p h hcs
+    obtain ⟨b1, b2, b3, b4⟩ := rollback_p h hcs
+    rcases hr : reorgTo U m cs with ⟨m1, e1⟩
+    rw [hr] at i1 mono1 r1 r4 b1 b2 b3 b4
+    simp only at i1 mono1 r1 r4 b1 b2 b3 b4
+    cases e1 with
+    | none =>
+      simp only
+      refine ⟨⟨⟨i1.core.h0, i1.core.closed, i1.core.staterec⟩, i1.chain, i1.frontier, i1.recstate, i1.pruned, i1.stored, i1.sidebody, i1.valid, i1.validHdr⟩,
+        ⟨mono1.states, mono1.supp⟩, Or.inl ⟨by trivial, Or.inl ⟨by trivial, ?_, ?_⟩⟩⟩
+      · simpa [Mgr.tip] using r1 rfl
+      · simp [mono1.notified]
+    | some e =>
+      rcases hr2 : reorgTo U m1 m.tip with ⟨m2, e2⟩
+      rw [hr2] at b1 b2 b3 b4
+      simp only at b1 b2 b3 b4
+      subst b1
+      rcases r4 with r4 | r4 | r4
+      · simp at r4
+      · cases r4
+        simp only [hr2]
+        exact ⟨b2, ⟨b3.states, b3.supp⟩, Or.inr ⟨by trivial, by trivial, b4, b3.notified⟩⟩
+      · cases r4
+        simp only [hr2]
+        exact ⟨b2, ⟨b3.states, b3.supp⟩, Or.inr ⟨by trivial, by trivial, b4, b3.notified⟩⟩
+
+/-- storing a header-valid block that is neither stored nor pruned keeps the pruned-node invariant -/
+theorem store_header_p {U m p} (hU : WFU U) (h : PInv U m p) {b : Nat}
+    (hnot : m.block b ≠ some true) (hnp : ¬ (m.header b = true ∧ (m.block b).isNone = true))
+    (hpar : m.states (par U b) = true) (hok : (U b).hdrOk = true) (hfut : (U b).future = false) :
+    PInv U { m with states := upd m.states b true, recs := upd m.recs b (some ⟨true, false⟩) } p := by
+  obtain ⟨hb0, hbh⟩ := hU.hdr b hok
+  have hnotbest : b ∉ m.best := by
+    intro hb
+    rcases h.toWInv.bestrec b hb with e | e
+    · exact hnot (by simp [Mgr.block, e])
+    · exact hnp ⟨by simp [Mgr.header, e], by simp [Mgr.block, e]⟩
+  refine ⟨⟨h.core.h0, ?_, ?_⟩, h.chain, h.frontier, ?_, ?_, ?_, ?_, ?_, ?_⟩
+  · intro j hj hj0
+    by_cases e : j = b
+    · subst e
+      refine ⟨?_, hbh⟩
+      by_cases e2 : par U j = j <;> simp [upd, e2, hpar]
+    · have hj' : m.states j = true := by simpa [upd, e] using hj
+      obtain ⟨c1, c2⟩ := h.core.closed j hj' hj0
+      refine ⟨?_, c2⟩
+      by_cases e2 : par U j = b <;> simp [upd, e2, c1]
+  · intro j hj
+    by_cases e : j = b
+    · subst e; simp [upd]
+    · simp [upd, e] at hj ⊢; exact h.core.staterec j hj
+  · intro j r hj
+    by_cases e : j = b
+    · subst e; simp [upd]
+    · simp [upd, e] at hj ⊢; exact h.recstate j r hj
+  · intro j hj hlt
+    have hjb : j ≠ b := fun e => hnotbest (e ▸ hj)
+    simpa [upd, hjb] using h.pruned j hj hlt
+  · intro j hj hle
+    have hjb : j ≠ b := fun e => hnotbest (e ▸ hj)
+    simpa [upd, hjb] using h.stored j hj hle
+  · intro j r hj hnm
+    by_cases e : j = b
+    · subst e; simp [upd] at hj; subst hj; rfl
+    · simp [upd, e] at hj; exact h.sidebody j r hj hnm
+  · intro j hj0 hj
+    by_cases e : j = b
+    · subst e; simp [upd] at hj
+    · simp [upd, e] at hj; exact h.valid j hj0 hj
+  · intro j hj0 hj
+    by_cases e : j = b
+    · subst e; exact ⟨hok, hfut⟩
+    · simp [upd, e] at hj; exact h.validHdr j hj0 hj
+
+/-- the per-block loop of `AddBlocks` on a pruned node -/
+theorem addLoop_p {U p} (hU : WFU U) : ∀ (batch : List Nat) (m : Mgr) (cs : Nat), PInv U m p → m.states cs = true →
+    PInv U (addBlocks.go U batch m cs).1 p ∧
+    (addBlocks.go U batch m cs).1.best = m.best ∧
+    (addBlocks.go U batch m cs).1.notified = m.notified ∧
+    ((∀ i, m.states i = true → (addBlocks.go U batch m cs).1.states i = true) ∧
+     (∀ i, m.recs i = some ⟨true, true⟩ → (addBlocks.go U batch m cs).1.recs i = some ⟨true, true⟩)) ∧
+    (addBlocks.go U batch m cs).1.states (addBlocks.go U batch m cs).2.2 = true ∧
+    ((addBlocks.go U batch m cs).2.1 = none ∨ (addBlocks.go U batch m cs).2.1 = some .missingParent ∨
+     (addBlocks.go U batch m cs).2.1 = some .future ∨ (addBlocks.go U batch m cs).2.1 = some .invalidHeader) := by
+  intro batch
+  induction batch with
+  | nil => intro m cs h hcs; simp [addBlocks.go, h, hcs]
+  | cons b bs ih =>
+    intro m cs h hcs
+    unfold addBlocks.go
+    by_cases h1 : m.block b = some true
+    · have hb : m.states b = true := by
+        simp only [Mgr.block] at h1
+        cases hr : m.recs b with
+        | none => simp [hr] at h1
+        | some r => exact h.recstate b r hr
+      simp only [h1, if_true]
+      exact ih m b h hb
+    · simp only [h1, if_false]
+      by_cases h2 : m.header b = true ∧ (m.block b).isNone = true
+      · have hb : m.states b = true := by
+          obtain ⟨r, hr⟩ := Option.isSome_iff_exists.mp (by simpa [Mgr.header] using h2.1)
+          exact h.recstate b r hr
+        simp only [h2, and_self, if_true]
+        exact ih m b h hb
+      · simp only [h2, if_false]
+        by_cases h3 : (U b).parent ≠ cs ∧ (!m.states (U b).parent) = true
+        · simp [h3, h, hcs]
+        · simp only [h3, if_false]
+          have hpar : m.states (par U b) = true := by
+            by_cases e : (U b).parent = cs
+            · simpa [par, e] using hcs
+            · have : ¬ ((!m.states (U b).parent) = true) := fun x => h3 ⟨e, x⟩
+              simpa [par] using this
+          cases hf : (U b).future with
+          | true => simp [h, hcs]
+          | false =>
+            cases hk : (U b).hdrOk with
+            | false => simp [h, hcs]
+            | true =>
+              simp only [Bool.false_eq_true, if_false, Bool.not_true]
+              have hinv' := store_header_p hU h h1 h2 hpar hk hf
+              obtain ⟨j1, j2, j3, j4, j5, j6⟩ := ih _ b hinv' (by simp [upd])
+              refine ⟨j1, j2, j3, ⟨?_, ?_⟩, j5, j6⟩
+              · intro i hi
+                apply j4.1
+                by_cases e : i = b <;> simp [upd, e, hi]
+              · intro i hi
+                apply j4.2
+                have hib : i ≠ b := by
+                  intro e; subst e; exact h1 (by simp [Mgr.block, hi])
+                simp [upd, hib, hi]
+
+/-- **`AddBlocks` on a pruned node**: the invariant (same frontier) is preserved for any batch;
+it never panics and a failed reorg is always rolled back (`rollbackFailed` cannot occur); on any
+error the best chain and the notification count are as before; the tip moves only to a
+sufficiently heavier chain, and then one notification is delivered. -/
+theorem addBlocks_p {U p} (hU : WFU U) {m : Mgr} (h : PInv U m p) (batch : List Nat) :
+    PInv U (addBlocks U m batch).1 p ∧
+    ((∀ i, m.states i = true → (addBlocks U m batch).1.states i = true) ∧
+     (∀ i, m.recs i = some ⟨true, true⟩ → (addBlocks U m batch).1.recs i = some ⟨true, true⟩)) ∧
+    (((addBlocks U m batch).2 = none ∧
+        (((addBlocks U m batch).1.best = m.best ∧ (addBlocks U m batch).1.notified = m.notified) ∨
+         (heavier U (addBlocks U m batch).1.tip m.tip = true ∧
+            (addBlocks U m batch).1.notified = m.notified + 1))) ∨
+     (((addBlocks U m batch).2 = some .missingParent ∨ (addBlocks U m batch).2 = some .future ∨
+        (addBlocks U m batch).2 = some .invalidHeader ∨ (addBlocks U m batch).2 = some .reorgFailed) ∧
+        (addBlocks U m batch).1.best = m.best ∧ (addBlocks U m batch).1.notified = m.notified)) := by
+  cases batch with
+  | nil => simp [addBlocks, h]
+  | cons b bs =>
+    simp only [addBlocks]
+    obtain ⟨j1, j2, j3, j4, j5, j6⟩ := addLoop_p hU (b :: bs) m m.tip h h.toWInv.tip_state
+    rcases hg : addBlocks.go U (b :: bs) m m.tip with ⟨m1, e, cs⟩
+    rw [hg] at j1 j2 j3 j4 j5 j6
+    simp only at j1 j2 j3 j4 j5 j6
+    cases e with
+    | some err =>
+      simp only
+      refine ⟨j1, j4, Or.inr ⟨?_, j2, j3⟩⟩
+      rcases j6 with j6 | j6 | j6 | j6
+      · simp at j6
+      · left; exact j6
+      · right; left; exact j6
+      · right; right; left; exact j6
+    | none =>
+      simp only
+      obtain ⟨k1, k2, k3⟩ := maybeReorg_p j1 j5
+      have htip : m1.tip = m.tip := by simp [Mgr.tip, j2]
+      refine ⟨k1, ⟨fun i hi => k2.1 i (j4.1 i hi), fun i hi => k2.2 i (j4.2 i hi)⟩, ?_⟩
+      rcases k3 with ⟨ke, (⟨kh, kt, kn⟩ | ⟨kh, km⟩)⟩ | ⟨ke, kh, kb, kn⟩
+      · left
+        refine ⟨ke, Or.inr ⟨?_, by rw [kn, j3]⟩⟩
+        rw [kt, ← htip]; exact kh
+      · left
+        refine ⟨ke, Or.inl ?_⟩
+        rw [km]; exact ⟨j2, j3⟩
+      · right
+        exact ⟨Or.inr (Or.inr (Or.inr ke)), by rw [kb, j2], by rw [kn, j3]⟩
+
+/-- the pruning loop started at `h` on a chain whose blocks at heights `[p, h)` have bodies turns
+every one of them into a header-only record (it stops only below `p`) -/
+theorem prune_go_from : ∀ (h : Nat) (m : Mgr) (p : Nat), m.best.Nodup → h ≤ m.best.length →
+    (∀ k, p ≤ k → k < h → ∀ i, m.bestAt k = some i → (m.block i).isSome = true) →
+    ∀ k, p ≤ k → k < h → ∀ i, m.bestAt k = some i → (prune.go h m).recs i = some ⟨false, false⟩ := by
+  intro h
+  induction h with
+  | zero => intro m p _ _ _ k _ hk; omega
+  | succ h ih =>
+    intro m p hn hlen hall k hpk hk i hi
+    have hex : ∃ i0, m.bestAt h = some i0 := by
+      unfold Mgr.bestAt
+      rw [if_pos (by omega)]
+      exact ⟨_, List.getElem?_eq_getElem (by omega)⟩
+    obtain ⟨i0, hi0⟩ := hex
+    obtain ⟨sp, hsp⟩ := Option.isSome_iff_exists.mp (hall h (by omega) (by omega) i0 hi0)
+    have hgo : prune.go (h + 1) m = prune.go h { m with recs := upd m.recs i0 (some ⟨false, false⟩) } := by
+      rw [prune.go]; simp [hi0, hsp]
+    rw [hgo]
+    by_cases hkh : k = h
+    · subst hkh
+      have : i = i0 := by rw [hi] at hi0; exact Option.some.inj hi0
+      subst this
+      rcases (prune_go_spec k { m with recs := upd m.recs i (some ⟨false, false⟩) }).2.2.2 i with e | ⟨e, _⟩
+      · rw [e]; simp [upd]
+      · exact e
+    · apply ih { m with recs := upd m.recs i0 (some ⟨false, false⟩) } p hn (by simpa using Nat.le_of_succ_le hlen) ?_ k hpk (by omega) i hi
+      intro k' hpk' hk' j hj
+      have hj' : m.bestAt k' = some j := hj
+      have hne : j ≠ i0 := by
+        intro e; subst e
+        have := bestAt_inj hn hj' hi0
+        omega
+      have := hall k' hpk' (by omega) j hj'
+      simpa [Mgr.block, upd, hne] using this
+
+/-- **`PruneBlocks(height)` on a pruned node moves the frontier to `max p (min height (tip+1))`**:
+afterwards exactly the best-chain blocks below the new frontier are header-only -/
+theorem prune_p {U m p} (h : PInv U m p) (height : Nat) :
+    PInv U (prune m height) (max p (min height m.best.length)) := by
+  have hw := h.toWInv
+  have hw' := prune_w hw height
+  have hlen : m.best.length ≠ 0 := by have := h.chain.ne_nil; simpa using this
+  have hH : min height (m.tipHeight + 1) = min height m.best.length := by
+    simp only [Mgr.tipHeight]; omega
+  obtain ⟨p1, p2, _, p4⟩ := prune_go_spec (min height (m.tipHeight + 1)) m
+  have hall := prune_go_from (min height (m.tipHeight + 1)) m p hw.nodup (by rw [hH]; omega)
+    (fun k hpk _ i hi => by have := (h.bestAt_rec hi).2.1 hpk; simp [Mgr.block, this])
+  rw [hH] at p4 hall
+  have hbest : (prune m height).best = m.best := p1
+  have hstates : (prune m height).states = m.states := p2
+  have hrecs : ∀ i, (prune m height).recs i = m.recs i ∨
+      ((prune m height).recs i = some ⟨false, false⟩ ∧ (m.recs i).isSome = true ∧
+        ∃ k, k < min height m.best.length ∧ m.bestAt k = some i) := by
+    intro i; have := p4 i; rw [← hH] at this ⊢; exact this
+  have hall' : ∀ k, p ≤ k → k < min height m.best.length → ∀ i, m.bestAt k = some i →
+      (prune m height).recs i = some ⟨false, false⟩ := by
+    intro k h1 h2 i hi; have := hall k h1 h2 i hi; rw [← hH] at this; exact this
+  refine ⟨hw'.core, hw'.chain, ?_, hw'.recstate, ?_, ?_, ?_, ?_, ?_⟩
+  · rw [hbest]; have := h.frontier; omega
+  · intro i hi hlt
+    rw [hbest] at hi
+    have hat := hw.bestAt_of_mem hi
+    by_cases hp : (U i).height < p
+    · have e := h.pruned i hi hp
+      rcases hrecs i with e' | ⟨e', _⟩
+      · rw [e', e]
+      · exact e'
+    · exact hall' _ (by omega) (by omega) i hat
+  · intro i hi hle
+    rw [hbest] at hi
+    have e := h.stored i hi (by omega)
+    rcases hrecs i with e' | ⟨_, _, k, hk, hat⟩
+    · rw [e', e]
+    · have := (hw.bestAt_height hat).1
+      omega
+  · intro i r hr hnm
+    rw [hbest] at hnm
+    rcases hrecs i with e' | ⟨_, _, k, _, hat⟩
+    · rw [e'] at hr; exact h.sidebody i r hr hnm
+    · exact absurd (bestAt_mem hat) hnm
+  · intro i hi0 hr
+    rcases hrecs i with e' | ⟨e', _⟩
+    · rw [e'] at hr; exact h.valid i hi0 hr
+    · rw [e'] at hr; simp at hr
+  · intro i hi0 hs
+    rw [hstates] at hs
+    exact h.validHdr i hi0 hs
+
 end Verif.Chain
